@@ -270,9 +270,10 @@ theorem handleBirth_eq (c : Cfg) (s : St) (ts bdseq id : Nat) (ans : Ans) (now w
         ((issueRebirth c s .invalidPayload now wall).1,
           [.nodeBirth id false] ++ (issueRebirth c s .invalidPayload now wall).2)
       else
-        ({ (cancelTimer s).1 with birthTs := ts, life := .birthed, bdseq := bdseq, reseq := Reseq.setNext Reseq.init 1 },
+        ({ (cancelTimer s).1 with birthTs := ts, life := .birthed, bdseq := bdseq, reseq := Reseq.setNext Reseq.init 1, devices := (cancelTimer s).1.devices.map fun d => (d.1, Life.stale) },
           (if s.life = .birthed ∧ s.bdseq = bdseq then [] else [Eff.nodeBirth id true]) ++
-            (cancelTimer s).2) := rfl
+            (cancelTimer s).2 ++
+            ((cancelTimer s).1.devices.filter fun d => d.2 == Life.birthed).map fun d => Eff.devStale d.1) := rfl
 
 theorem step_ndeath_eq (c : Cfg) (s : St) (bd now wall : Nat) :
     step c s (.ndeath bd) now wall =
